@@ -43,8 +43,12 @@ func (g *gen) script(n, depth int, pRun, pTry int) []Cmd {
 			out = append(out, g.try(depth-1))
 		case k >= 100-pTry-pRun && depth > 0 && g.budget > 2:
 			g.budget--
-			out = append(out, Cmd{K: "run", Q: often(g.rt, 30, "quoted"),
-				Body: g.script(1+hx.Uniform(g.rt, 3, "runlen"), depth-1, pRun/2, pTry/2)})
+			r := Cmd{K: "run", Q: often(g.rt, 30, "quoted"),
+				Body: g.script(1+hx.Uniform(g.rt, 3, "runlen"), depth-1, pRun/2, pTry/2)}
+			if often(g.rt, 15, "ctlsandbox") {
+				r.SB = "ctl"
+			}
+			out = append(out, r)
 		default:
 			out = append(out, g.probe())
 		}
@@ -62,6 +66,7 @@ func leaves(cmds []Cmd, out *[]*Cmd) {
 		case "p":
 			*out = append(*out, c)
 		case "run":
+			*out = append(*out, c) // the task itself can fail at sandbox set-up
 			leaves(c.Body, out)
 		case "try":
 			leaves(c.Succ, out)
@@ -82,7 +87,17 @@ func (g *gen) injectFailure(cmds []Cmd, pos int) {
 		if len(ls) == 0 {
 			continue
 		}
-		ls[hx.Uniform(g.rt, len(ls), "failleaf")].F = true
+		l := ls[hx.Uniform(g.rt, len(ls), "failleaf")]
+		switch {
+		case l.K == "run":
+			l.SB = []string{"broken", "container"}[hx.Uniform(g.rt, 2, "sbkind")]
+		case often(g.rt, 12, "probe2brokentask"):
+			// the failing command becomes a nested task that fails while its sandbox is set up
+			*l = Cmd{K: "run", SB: []string{"broken", "container"}[hx.Uniform(g.rt, 2, "sbkind")], Q: often(g.rt, 50, "quoted"),
+				Body: []Cmd{{K: "p", D: l.D}}}
+		default:
+			l.F = true
+		}
 		return
 	}
 }
@@ -163,6 +178,10 @@ func EnumBodies() [][]Cmd {
 		{{K: "try", Body: []Cmd{pr(0, true)}, Fail: []Cmd{pr(100, false)}}, pr(0, false)},
 		{{K: "try", Body: []Cmd{pr(0, false)}, Succ: []Cmd{pr(20, true)}}, pr(0, false)},
 		{pr(1000, false), {K: "run", Body: []Cmd{pr(2500, false)}}},
+		{pr(0, false), {K: "run", SB: "broken", Body: []Cmd{pr(0, false)}}, pr(0, false)},
+		{{K: "run", SB: "container", Q: true, Body: []Cmd{pr(0, false)}}, pr(0, false)},
+		{pr(0, false), {K: "run", SB: "ctl", Body: []Cmd{pr(100, false), {K: "run", SB: "broken", Body: []Cmd{pr(0, false)}}}}},
+		{{K: "run", SB: "ctl", Body: []Cmd{pr(100, false), pr(0, false)}}, pr(0, false)},
 	}
 }
 
